@@ -261,6 +261,7 @@ pub fn new_interp(cfg: &RefCfg, sources: &[(String, ModuleSrc)]) -> (Rc<Shared>,
         events: RefCell::new(BTreeMap::new()),
         ranges: RefCell::new(Vec::new()),
         pending_finally: Cell::new(0),
+        e11_armed: Cell::new(false),
         fibers: RefCell::new(Vec::new()),
         cells: RefCell::new(Vec::new()),
         instances: RefCell::new(Vec::new()),
